@@ -369,6 +369,16 @@ def rule_F2(prog):
                          "with (old, new) and build the remapper from (diff, old, new)")
     if "text" not in prog.features:
         return r
+    # private field names of TextDiffConfig are found by type (a maintainer may rename them)
+    cfg_adt = prog.adts.get("text::TextDiffConfig")
+    alg_field, nt_field = "algorithm", "newline_terminated"
+    if cfg_adt:
+        for f_ in cfg_adt["variants"][0]["fields"]:
+            ts = (f_.get("ty_str") or "").replace(" ", "")
+            if ts.endswith("Algorithm"):
+                alg_field = f_["name"]
+            elif ts == "std::option::Option<bool>":
+                nt_field = f_["name"]
     for name, (tok, flag) in sorted(TOKENIZERS.items()):
         fns = prog.find("text::TextDiffConfig::" + name)
         if not fns:
@@ -400,7 +410,7 @@ def rule_F2(prog):
             r.find(fn.path, "wiring", "TextDiffConfig::%s must be self.diff(old.%s(), new.%s(), %s); found %s" % (
                 name, tok, tok, flag, got), file=fn.file, line=fn.line)
     # builder setters store what they are given
-    for name, field, want in (("algorithm", "algorithm", "alg"), ("newline_terminated", "newline_terminated", "Some(yes)")):
+    for name, field, want in (("algorithm", alg_field, "alg"), ("newline_terminated", nt_field, "Some(yes)")):
         fns = prog.find("text::TextDiffConfig::" + name)
         if not fns:
             continue
@@ -438,8 +448,8 @@ def rule_F2(prog):
             lets = _lets(fn)
             f = {x["name"]: origin(x["e"]) for x in lits[0]["fields"]}
             fd = {x["name"]: origin_deep(x["e"], lets) for x in lits[0]["fields"]}
-            want = {"old": "old", "new": "new", "ops": "ops", "algorithm": "self.algorithm",
-                    "newline_terminated": "self.newline_terminated.unwrap_or(newline_terminated)"}
+            want = {"old": "old", "new": "new", "ops": "ops", "algorithm": "self." + alg_field,
+                    "newline_terminated": "self.%s.unwrap_or(newline_terminated)" % nt_field}
             for k, v in want.items():
                 if f.get(k) != v and (k in ("old", "new", "ops") or fd.get(k) != v):
                     problems.append("field %s = %s (required %s)" % (k, f.get(k), v))
@@ -470,7 +480,7 @@ def rule_F2(prog):
                         ints[0], {"u8": "256", "u16": "65536", "i8": "128", "i16": "32768", "i32": "2^31"}.get(ints[0], "few")))
         for c in caps:
             a = [origin(x) for x in c["args"]]
-            if not a or a[0] != "self.algorithm":
+            if not a or a[0] != "self." + alg_field:
                 problems.append("capture_diff_deadline algorithm argument = %s" % (a[0] if a else "?"))
         r.ob(not problems, "TextDiffConfig::diff: TextDiff literal and %d capture calls: %s" % (len(caps), problems or "ok"))
         if problems:
@@ -1483,6 +1493,15 @@ def rule_F8(prog):
 
 
 # ---------------------------------------------------------------- F9
+def _calls_role(prog, call, name):
+    """Is `call` (a HIR call node) a call of the function the rule tables know as `name` (by name or by role)?"""
+    f = unwrap(call.get("f"))
+    if origin(f).endswith(name):
+        return True
+    pth = (f.get("res") or {}).get("path", "") if isinstance(f, dict) and f.get("k") == "path" else ""
+    return bool(pth) and prog.canon(pth).endswith(name)
+
+
 def rule_F9(prog):
     r = RuleResult("F9", "inline emphasis: push_values stores with a segment either `false` or the negation of "
                          "ends_with_newline of that same segment; iter_inline_changes passes emphasized=true only in the "
@@ -1528,10 +1547,10 @@ def rule_F9(prog):
                     if g is None or not g.hir:
                         continue
                     pn = [pp["pat"].get("name") for pp in g.hir["params"]]
-                    if origin(c["f"]).endswith("push_values") and len(args) > 2:
+                    if _calls_role(prog, c, "push_values") and len(args) > 2:
                         flags.append(origin_deep(args[2], lets_f))
-                    elif "emphasized" in pn and find_nodes(g.hir["body"], lambda n: n["k"] == "call" and origin(n["f"]).endswith("push_values")):
-                        inner = find_nodes(g.hir["body"], lambda n: n["k"] == "call" and origin(n["f"]).endswith("push_values"))
+                    elif "emphasized" in pn and find_nodes(g.hir["body"], lambda n: n["k"] == "call" and _calls_role(prog, n, "push_values")):
+                        inner = find_nodes(g.hir["body"], lambda n: n["k"] == "call" and _calls_role(prog, n, "push_values"))
                         if all(len(i_["args"]) > 2 and origin(i_["args"][2]) == "emphasized" for i_ in inner):
                             flags.append(origin_deep(args[pn.index("emphasized")], lets_f))
             good = bool(flags) and all(re.match(r"^\((.*)!=DiffTag::Equal\)$", f_) or re.match(r"^Not\(\((.*)==DiffTag::Equal\)\)$", f_)
@@ -1545,7 +1564,7 @@ def rule_F9(prog):
         else:
             mn, arms = ms[0]
         for v, a in arms.items():
-            calls = find_nodes(a["body"], lambda n: n["k"] == "call" and origin(n["f"]).endswith("push_values"))
+            calls = find_nodes(a["body"], lambda n: n["k"] == "call" and _calls_role(prog, n, "push_values"))
             flags = [origin(c["args"][2]) for c in calls if len(c["args"]) > 2]
             if not calls:
                 # through a private helper that hands one of its own parameters to push_values as the flag
@@ -1553,7 +1572,7 @@ def rule_F9(prog):
                     g, args = _call_target(prog, c)
                     if g is None or not g.hir or not g.hir.get("body") or g.public:
                         continue
-                    inner = find_nodes(g.hir["body"], lambda n: n["k"] == "call" and origin(n["f"]).endswith("push_values") and len(n["args"]) > 2)
+                    inner = find_nodes(g.hir["body"], lambda n: n["k"] == "call" and _calls_role(prog, n, "push_values") and len(n["args"]) > 2)
                     pn = [pp["pat"].get("name") for pp in g.hir["params"]]
                     for i_ in inner:
                         o = origin(i_["args"][2])
@@ -2125,8 +2144,10 @@ def rule_F14(prog):
     r = RuleResult("F14", "the key wrapper of IdentifyDistinct compares items in all four combinations (old/old, new/new, "
                           "old/new, new/old): every arm of its PartialEq::eq compares the two payloads with ==, none returns a "
                           "constant")
+    # the key wrapper is a local item of IdentifyDistinct::new, whatever it is called
     fns = [f for f in prog.user_fns() if f.name == "eq" and f.impl and f.impl.get("trait") == "std::cmp::PartialEq" and
-           (ty_head(f.impl["self_ty"]) or "").endswith("::Key")]
+           ((ty_head(f.impl["self_ty"]) or "").endswith("::Key") or
+            ("IdentifyDistinct" in (ty_head(f.impl["self_ty"]) or "") and "::new::" in (ty_head(f.impl["self_ty"]) or "")))]
     r.instances = len(fns)
     for fn in fns:
         combos = set()
